@@ -142,6 +142,49 @@ CHECKS = {
         level_note="state machine effects are abstract; sender behaviour is a hypothesis for 'never skips'; admin override excluded.",
         technique="Lean 4 proof (inductive invariant + replay idempotence over regenerated filter) + differential run of the real apply path",
     ),
+    'C04': dict(
+        gens=[],
+        props='ZanVerif.Props.C04',
+        protos=[dict(name='lin', mode='cert', quick_seeds=1, thorough_seeds=1)],
+        rule="each op line is one concurrent history (quick 3 x 300 ops x 4 clients, thorough 20 x 1500 x 6) against a real 3-replica "
+             "namespace (three server.Server in one process, raft over rafthttp loopback, pebble) under leader transfers and graceful "
+             "stop/restart of a follower or of the leader; evaluations = histories, the notes count operations / faults / local answers",
+        trusted=["the history recorder: monotonic stamps taken around Server.serverRedis calls on the client goroutine; request ids learnt "
+                 "through a wrapper of KVNode.w (wait.Wait) on the proposing goroutine; apply trace from one inserted line in KVNode.applyEntry",
+                 "half of the clients are plain TCP/RESP clients of the redis port (their server-side connection goroutine is learnt by a one-command "
+                 "handshake), half call Server.serverRedis in-process with an in-memory redcon.Conn",
+                 "sequential specification lean/ZanVerif/Node/LinSpec.lean (and its independent Go twin for the oracle) for the 8 commands used"],
+        partial=["an LPOP that finds the list empty at apply time answers an empty bulk string instead of nil; both are read as 'no element' (counted in notes)",
+                 "reads and 'nothing to do' write replies are answered from local state without a raft entry; they are placed by search, those that cannot "
+                 "be placed are oracle violations of class stale-local-answer and are set aside by the certificate checker"],
+        assumptions=["graceful faults only in this protocol (kill -9 is protocol crash / C06)", "one partition, one namespace, <= 4 keys per history"],
+        level_text="Theorems: checkCert/checkLin soundness (acceptance => replicas agree on common indexes, no operation at two indexes, order = raft index order, "
+                   "history linearizable w.r.t. LinSpec incl. the final dump of every replica). Tie: every recorded history of the real cluster is checked by that checker.",
+        level_note="certificate checking of recorded runs, not a proof about the Go code",
+        technique="Lean 4 proven certificate checker over histories recorded from real 3-replica clusters + independent Go oracle",
+    ),
+    'C06': dict(
+        gens=[],
+        props='ZanVerif.Props.C06',
+        protos=[dict(name='crash', mode='cert', quick_seeds=1, thorough_seeds=1)],
+        rule="each op line is one crash/restart run of a real single-replica KVNode child process (raft, WAL with 4 kB segments, SnapCount 15, "
+             "KeepBackup 2, KeepWAL 2, pebble; thorough also mem): quick = every reachable crash point x 2 placements (early; mid-history as a "
+             "30 ms slow step) + 4 SIGKILL instants, about 100 runs; thorough = 20 rounds with random k, history length, client window, engine; "
+             "notes list crash-at:<point> / crash-point-not-reached:<point> / crash_points_missing:<point>",
+        trusted=["tools/instrument: one statement verifCrash(\"name\") inserted before/after the anchor call found by name in copies of the CURRENT "
+                 "node/raft.go, node/node.go, node/raft_storage.go, rockredis/rockredis.go, wal/wal.go, pkg/fileutil/purge.go (a missing anchor is listed, not hidden)",
+                 "process death = os.Exit(137) at the point (nothing flushed) or SIGKILL; no power-loss model (page cache survives)",
+                 "single client, proposals made in send order by one goroutine: log order = send order",
+                 "sequential specification LinSpec for the 7 write commands used (Go twin for the oracle)"],
+        partial=["single-replica groups only: the points that need a snapshot arriving from a leader (applysnap.*, persist.savesnap.*, ready.applysnap.*, "
+                 "ready.snapsync.after, ready.release.after) are instrumented but not exercised",
+                 "Persist.lean is the abstract ordering model (prototype); its refinement to the two real loops is not part of this package"],
+        assumptions=["engine directory is untrusted after a crash, checkpoint directories are intact once Save returned"],
+        level_text="Theorems: checkCrash soundness (accepted run => served state = replay of a prefix of the sent writes containing every acknowledged one, "
+                   "specified replies) and the abstract recovery model (recover_total, served_state). Tie: every crash/restart run of the real node is checked by that checker.",
+        level_note="certificate checking of recorded crash runs; F1 (single-voter ack before persist) is expected to be reported",
+        technique="Lean 4 proven certificate checker over crash/restart runs of a real node process with injected crash points + independent Go oracle",
+    ),
     'C07': dict(
         gens=['Ttl'],
         props='ZanVerif.Props.C07',
